@@ -28,17 +28,35 @@ enum { NPERMFAM = 48 };
 static bool is_permuted(int fam) { return fam >= FAM_COUNT && fam < FAM_COUNT + NPERMFAM; }
 // one more family, FAM_COUNT+NPERMFAM: Rosenbrock's valley (f0 = 10 (x1 - x0^2), f1 = 1 - x0, f_i = x_i - 1) started at (-1.2, 1, ...): trial steps are
 // rejected and restarted all along, for every budget from 1 to 60 (the budget tests of the solvers are equalities on a counter)
-enum { FAM_ROSENBROCK = FAM_COUNT + NPERMFAM };
+enum { FAM_ROSENBROCK = FAM_COUNT + NPERMFAM, FAM_LAST_SLOW };
+// FAM_LAST_SLOW: every equation but the last is linear (solved by the first correction), the last one is cubic and needs several more
+// iterations: the residual is small in all components but the last for a few iterates
 static bool is_affine(int fam) { return fam == FAM_AFFINE || (fam >= FAM_AFFINE_1EM6 && fam < FAM_COUNT) || is_permuted(fam); }
 static void perm4(int k, int out[4]) { int pool[4] = {0, 1, 2, 3}; int n = 4; for (int i = 0; i < 4; ++i) { int f = 1; for (int j = 2; j < n; ++j) f *= j; int q = k / f; k %= f; out[i] = pool[q]; for (int j = q; j + 1 < n; ++j) pool[j] = pool[j + 1]; --n; } }
 static std::string family_name(int fam) {
   if (fam == FAM_ROSENBROCK) return "rosenbrock-valley";
+  if (fam == FAM_LAST_SLOW) return "linear-but-the-last-equation(cubic)";
   if (!is_permuted(fam)) return fam_name[fam];
   int pm[4]; perm4((fam - FAM_COUNT) % 24, pm);
   return std::string("affine-rows-permuted(base=") + ((fam - FAM_COUNT) / 24 ? "I+2*superdiagonal" : "I+2*e0e1^T") + ",rows=" + std::to_string(pm[0]) + std::to_string(pm[1]) + std::to_string(pm[2]) + std::to_string(pm[3]) + ")";
 }
 static double scale_of(int fam) { return fam == FAM_AFFINE_1EM6 ? 1e-6 : fam == FAM_AFFINE_1EM9 ? 1e-9 : fam == FAM_AFFINE_1EM12 ? 1e-12 : 1.0; }
-static const char* solver_name[] = {"TinyNewtonRaphsonSolver", "TinyBroydenSolver", "TinyBroyden2Solver", "TinyPowellDogLegNewtonRaphsonSolver", "TinyPowellDogLegBroydenSolver", "TinyLevenbergMarquardtSolver"};
+static const char* solver_name[] = {"TinyNewtonRaphsonSolver", "TinyBroydenSolver", "TinyBroyden2Solver", "TinyPowellDogLegNewtonRaphsonSolver", "TinyPowellDogLegBroydenSolver", "TinyLevenbergMarquardtSolver",
+                                    "TinyNewtonRaphsonSolver(external workspace: views on a caller's buffer)", "TinyNewtonRaphsonSolver(heap workspace: tfel::math::vector / matrix, LUSolve)"};
+// solvers 6 and 7 are the Newton-Raphson solver with the two other kinds of workspace the ExternalWorkSpace template parameter documents
+// (upstream only instantiates them for N = 2): residual norm, linear solve and assignments go through other overloads than with the default
+#if SOLVER_INDEX == 6
+#define WORKSPACE 1
+#elif SOLVER_INDEX == 7
+#define WORKSPACE 2
+#else
+#define WORKSPACE 0
+#endif
+#if SOLVER_INDEX == 0 || SOLVER_INDEX >= 6
+#define IS_NEWTON 1
+#else
+#define IS_NEWTON 0
+#endif
 
 struct Plan { int family; int iterMax; unsigned fault_mask; int kind; };   // bit k of fault_mask: evaluation k is faulty
 struct Eval { std::vector<double> x; bool faulty; bool injected; };
@@ -50,6 +68,11 @@ template <unsigned short N> void reference(int family, const tfel::math::tvector
   if (family == FAM_ROSENBROCK) {
     for (unsigned short i = 0; i < N; ++i) { f(i) = x(i) - 1; if (J) (*J)(i, i) = 1; }
     if (N >= 2) { f(0) = 10 * (x(1) - x(0) * x(0)); f(1) = 1 - x(0); if (J) { (*J)(0, 0) = -20 * x(0); (*J)(0, 1) = 10; (*J)(1, 0) = -1; (*J)(1, 1) = 0; } }
+    return;
+  }
+  if (family == FAM_LAST_SLOW) {
+    for (unsigned short i = 0; i < N; ++i) { f(i) = x(i) - double(i + 1) / N; if (J) (*J)(i, i) = 1; }
+    const unsigned short l = N - 1; f(l) = x(l) * x(l) * x(l) - 8.; if (J) (*J)(l, l) = 3 * x(l) * x(l);   // root 2, started at 0.05 N
     return;
   }
   if (is_permuted(family)) {
@@ -85,6 +108,32 @@ template <unsigned short N> void reference(int family, const tfel::math::tvector
 #include "TFEL/Math/TinyNewtonRaphsonSolver.hxx"
 #define SOLVER_T tfel::math::TinyNewtonRaphsonSolver
 #define HAS_USER_JACOBIAN 1
+#elif SOLVER_INDEX >= 6
+#include "TFEL/Math/TinyNewtonRaphsonSolver.hxx"
+#include "TFEL/Math/vector.hxx"
+#include "TFEL/Math/matrix.hxx"
+#include "TFEL/Math/LUSolve.hxx"
+#include "TFEL/Math/Array/View.hxx"
+#define HAS_USER_JACOBIAN 1
+template <unsigned short N, typename NumericType>
+struct ExternallyAllocatedWorkspace {
+  explicit ExternallyAllocatedWorkspace(NumericType* const v) : fzeros(v), zeros(v + N), delta_zeros(v + 2 * N), jacobian(v + 3 * N) {}
+  tfel::math::View<tfel::math::tvector<N, NumericType>> fzeros, zeros, delta_zeros;
+  tfel::math::View<tfel::math::tmatrix<N, N, NumericType>> jacobian;
+};
+template <unsigned short N, typename NumericType>
+struct HeapAllocatedWorkspace {
+  HeapAllocatedWorkspace() : fzeros(N), zeros(N), delta_zeros(N), jacobian(N, N) {}
+  tfel::math::vector<NumericType> fzeros, zeros, delta_zeros;
+  tfel::math::matrix<NumericType> jacobian;
+};
+template <unsigned short N> struct Buffer { double values[3 * N + N * N]; };
+#if SOLVER_INDEX == 6
+template <unsigned short N, typename T, typename C> using SolverWithWorkspace = tfel::math::TinyNewtonRaphsonSolver<N, T, C, ExternallyAllocatedWorkspace>;
+#else
+template <unsigned short N, typename T, typename C> using SolverWithWorkspace = tfel::math::TinyNewtonRaphsonSolver<N, T, C, HeapAllocatedWorkspace>;
+#endif
+#define SOLVER_T SolverWithWorkspace
 #elif SOLVER_INDEX == 1
 #include "TFEL/Math/TinyBroydenSolver.hxx"
 #define SOLVER_T tfel::math::TinyBroydenSolver
@@ -108,9 +157,17 @@ template <unsigned short N> void reference(int family, const tfel::math::tvector
 #endif
 
 template <unsigned short N>
+#if WORKSPACE == 1
+struct Probe : public Buffer<N>, public SOLVER_T<N, double, Probe<N>> {
+#else
 struct Probe : public SOLVER_T<N, double, Probe<N>> {
+#endif
   const Plan* plan = nullptr; Log* log = nullptr;
+#if WORKSPACE == 1
+  Probe(const Plan& p, Log& l) : SOLVER_T<N, double, Probe<N>>(static_cast<Buffer<N>*>(this)->values), plan(&p), log(&l) {
+#else
   Probe(const Plan& p, Log& l) : plan(&p), log(&l) {
+#endif
     for (unsigned short i = 0; i < N; ++i) this->zeros(i) = (p.family == FAM_SINGULAR_START) ? 0. : (p.family == FAM_ROSENBROCK) ? (i == 0 ? -1.2 : 1.) : 0.05 * (i + 1);
     this->epsilon = 1.e-10 * scale_of(p.family);
     this->iterMax = static_cast<unsigned short>(p.iterMax);
@@ -129,15 +186,22 @@ struct Probe : public SOLVER_T<N, double, Probe<N>> {
   bool solve() { return this->solveNonLinearSystem(); }
   unsigned short iterations() const { return this->iter; }
   using SOLVER_T<N, double, Probe<N>>::zeros;
-  const tfel::math::tvector<N, double>& unknowns() const { return this->zeros; }
-  const tfel::math::tvector<N, double>& residual() const { return this->fzeros; }
+  tfel::math::tvector<N, double> unknowns() const { tfel::math::tvector<N, double> r; for (unsigned short i = 0; i < N; ++i) r(i) = this->zeros(i); return r; }
+#if WORKSPACE == 2
+  // a heap workspace leaves the linear solve to the child, as upstream's NewtonRaphsonSolver4 does
+  bool solveLinearSystem(tfel::math::matrix<double>& m, tfel::math::vector<double>& v) const noexcept { try { tfel::math::LUSolve::exe(m, v); } catch (...) { return false; } return true; }
+#endif
   bool computeResidual() {
     const size_t k = log->evals.size();
     Eval e; e.x.assign(this->zeros.begin(), this->zeros.end());
     const bool faulty = k < 32 && ((plan->fault_mask >> k) & 1u);
     e.injected = faulty; e.faulty = faulty && !(plan->kind == FK_NAN_JACOBIAN && HAS_USER_JACOBIAN); log->evals.push_back(e);   // a poisoned jacobian does not invalidate the residual itself
     if (k > 4096) throw Runaway{};   // endless loop: the run is stopped here and reported by the evaluation-bound oracle
-#if HAS_USER_JACOBIAN
+#if WORKSPACE != 0
+    { tfel::math::tvector<N, double> x_, f_; tfel::math::tmatrix<N, N, double> J_; for (unsigned short i = 0; i < N; ++i) x_(i) = this->zeros(i);
+      reference<N>(plan->family, x_, f_, &J_);
+      for (unsigned short i = 0; i < N; ++i) { this->fzeros(i) = f_(i); for (unsigned short c = 0; c < N; ++c) this->jacobian(i, c) = J_(i, c); } }
+#elif HAS_USER_JACOBIAN
     reference<N>(plan->family, this->zeros, this->fzeros, &(this->jacobian));
 #else
     reference<N>(plan->family, this->zeros, this->fzeros, nullptr);
@@ -199,11 +263,11 @@ template <unsigned short N> Verdict run_plan(const Plan& p) {
       if (s.iterations() > p.iterMax) fail("iter-exceeds-iterMax", "second resolution on the same object: iter=" + std::to_string(s.iterations()) + " iterMax=" + std::to_string(p.iterMax));
       if (ok2 && log2.evals.empty()) fail("success-without-evaluation", "second resolution on the same object reported success without evaluating the residual");
       if (ok2 && !log2.evals.empty() && memcmp(log2.evals.back().x.data(), s.unknowns().begin(), sizeof(double) * N) != 0) fail("success-at-other-point", "second resolution: the returned unknowns are not the point of the last residual evaluation");
-      if (SOLVER_INDEX == 0 && is_affine(p.family) && p.iterMax >= 3 && !ok2) fail("no-convergence-after-faults-stopped", "second, fault-free resolution on the same Newton solver object did not converge on an affine system (iterMax=" + std::to_string(p.iterMax) + ", " + std::to_string(log2.evals.size()) + " evaluations)");
+      if (IS_NEWTON && is_affine(p.family) && p.iterMax >= 3 && !ok2) fail("no-convergence-after-faults-stopped", "second, fault-free resolution on the same Newton solver object did not converge on an affine system (iterMax=" + std::to_string(p.iterMax) + ", " + std::to_string(log2.evals.size()) + " evaluations)");
     }
     s.plan = &p; s.log = &log;
   }
-#if SOLVER_INDEX == 0
+#if IS_NEWTON
   // bounded liveness (Newton, affine, rejected evaluations only): once the faults stop, one clean evaluation, one correction
   // and one more evaluation are enough; demanded only when that many iterations are left after the last fault
   if (is_affine(p.family) && p.kind != FK_NAN_JACOBIAN) {
@@ -215,7 +279,13 @@ template <unsigned short N> Verdict run_plan(const Plan& p) {
 }
 
 static Verdict dispatch(int n, const Plan& p) {
-  switch (n) { case 1: return run_plan<1>(p); case 2: return run_plan<2>(p); case 3: return run_plan<3>(p); case 4: return run_plan<4>(p); case 6: return run_plan<6>(p); default: return run_plan<8>(p); }
+  switch (n) {
+    case 1: return run_plan<1>(p); case 2: return run_plan<2>(p); case 3: return run_plan<3>(p); case 4: return run_plan<4>(p); case 6: return run_plan<6>(p);
+#if WORKSPACE != 0
+    case 5: return run_plan<5>(p); case 7: return run_plan<7>(p);
+#endif
+    default: return run_plan<8>(p);
+  }
 }
 
 static void print(const char* cls, int n, const Plan& p, const Verdict& v) {
@@ -231,7 +301,11 @@ int main(int argc, char** argv) {
     Verdict v = dispatch(atoi(argv[3]), p); print(v.cls.c_str(), atoi(argv[3]), p, v); return 0;
   }
   int tier = 0; for (int i = 1; i < argc; ++i) if (!strcmp(argv[i], "--tier") && i + 1 < argc) tier = atoi(argv[++i]);
+#if WORKSPACE != 0
+  static const int sizes[] = {1, 2, 3, 4, 5, 6, 7, 8};
+#else
   static const int sizes[] = {1, 2, 3, 4, 6, 8};
+#endif
   static const int iters_quick[] = {0, 1, 2, 4, 7}, iters_thorough[] = {0, 1, 2, 3, 4, 6, 9, 12};
   const int* iters = tier ? iters_thorough : iters_quick; const int niters = tier ? 8 : 5;
   long cases = 0, fault_reached = 0, converged = 0, violations = 0, samples = 0; long by_kind[FK_COUNT] = {0};
@@ -256,6 +330,17 @@ int main(int argc, char** argv) {
       if (__builtin_popcount(mask) > 1) continue;
       for (int kind = (mask ? 1 : 0); kind < (mask ? 2 : 1); ++kind) {
         Plan p{FAM_ROSENBROCK, im, mask, kind};
+        Verdict v = dispatch(n, p);
+        ++cases; if (v.any_fault_hit) { ++fault_reached; by_kind[kind]++; } if (v.converged) ++converged;
+        if (v.cls != "ok") { ++violations; print(v.cls.c_str(), n, p, v); }
+      }
+    }
+  }
+  for (int n : sizes) {   // all equations but the last converge at once: every budget, no fault or one fault early on
+    for (int im = 1; im <= 20; ++im) for (unsigned mask = 0; mask < 8u; ++mask) {
+      if (__builtin_popcount(mask) > 1) continue;
+      for (int kind = (mask ? 1 : 0); kind < (mask ? int(FK_COUNT) : 1); ++kind) {
+        Plan p{FAM_LAST_SLOW, im, mask, kind};
         Verdict v = dispatch(n, p);
         ++cases; if (v.any_fault_hit) { ++fault_reached; by_kind[kind]++; } if (v.converged) ++converged;
         if (v.cls != "ok") { ++violations; print(v.cls.c_str(), n, p, v); }
